@@ -38,6 +38,12 @@ type Epoch struct{ E uint64 }
 
 func (e *Epoch) CurrentEpoch() uint64 { return e.E }
 
+// payments is the container payments stub: payments disabled (no container is ever unpaid).
+type payments struct{}
+
+func (payments) PaymentsDisabled() bool             { return true }
+func (payments) UnpaidSince(cid.ID) (int64, error) { return -1, nil }
+
 // Stor wraps the real FSTree: every call is a scheduling point; writes may fail by plan.
 type Stor struct {
 	*fstree.FSTree
@@ -160,6 +166,7 @@ func New(s *sched.S, root string, o Opts) (*World, error) {
 			writecache.WithNoSync(true), writecache.WithLogger(zap.NewNop())),
 		shard.WithRemoverBatchSize(o.RmBatch),
 		shard.WithGCRemoverSleepInterval(time.Hour),
+		shard.WithContainerPayments(payments{}),
 	}
 	w.Sh = shard.New(opts...)
 	if err := w.Sh.Open(); err != nil {
@@ -262,6 +269,7 @@ func Reopen(root string, epoch uint64, writeCache bool) (*shard.Shard, *fstree.F
 		shard.WithWriteCacheOptions(writecache.WithPath(filepath.Join(root, "wc")), writecache.WithNoSync(true),
 			writecache.WithFlushWorkersCount(1), writecache.WithLogger(zap.NewNop())),
 		shard.WithGCRemoverSleepInterval(time.Hour),
+		shard.WithContainerPayments(payments{}),
 	)
 	if err := sh.Open(); err != nil {
 		return nil, nil, err
